@@ -251,7 +251,7 @@ Theorem delta_encode64_meta_ok v0 rest :
   m_maxBitWidth m = bits_needed (max_val (deltas64 v0 rest)).
 Proof.
   cbv zeta. unfold delta_encode64_meta. cbv zeta.
-  cbn [m_count m_encodedBytes m_blockCount m_lastBlockSize m_maxBitWidth].
+  cbn [m_count m_encodedBytes m_blockCount m_lastBlockSize m_maxBitWidth]. rewrite nlen_eq.
   cbn [length]. rewrite Nat2N.inj_succ.
   set (n := N.of_nat (length rest)) in *.
   repeat split.
